@@ -24,7 +24,10 @@ pub fn safe_math_optimization(source_unit: SourceUnit, pre_080: bool) -> HashSet
             None => return optimization_locations,
         };
 
-    if (pre_080 && solidity_version.1 < 8) || (!pre_080 && solidity_version.1 >= 8) {
+    //Compare the whole (major, minor, patch) version with 0.8.0
+    let is_pre_080 = solidity_version < (0, 8, 0);
+
+    if (pre_080 && is_pre_080) || (!pre_080 && !is_pre_080) {
         //if using safe math
         if check_if_using_safe_math(source_unit.clone()) {
             //get all locations that safe math functions are used
